@@ -303,3 +303,43 @@ def _clip_cycle(repo, ob, failure):
             return {"input": doc, "observed": "exit %s%s: %s" % (r["rc"], " (timeout)" if r["timeout"] else "", r["err"].strip()[-200:]),
                     "expected": "an error value (circular reference), never a stack overflow"}
     return None
+
+
+@generator("C09.dir.")
+@generator("C09.delta.")
+def _dir_placement(repo, ob, failure):
+    """reference model of `|h |H |v |V` over rects, with and without dw/dh: beside the referenced
+    box, centred on the shared axis, separated by the gap, using the element's FINAL size"""
+    ax1, ay1, aw, ah = 20.0, 20.0, 30.0, 20.0
+    for d in "hHvV":
+        for gap in (None, 2.0, -3.0):
+            for (w, h) in ((10.0, 10.0), (10.0, 6.0)):
+                for dwh in (None, (4.0, 6.0), ("50%", "150%")):
+                    fw, fh = w, h
+                    if dwh:
+                        fw = w * float(dwh[0][:-1]) / 100 if isinstance(dwh[0], str) else w + dwh[0]
+                        fh = h * float(dwh[1][:-1]) / 100 if isinstance(dwh[1], str) else h + dwh[1]
+                    g = gap or 0.0
+                    cx, cy = ax1 + aw / 2, ay1 + ah / 2
+                    ex, ey = {"h": (ax1 + aw + g, cy - fh / 2), "H": (ax1 - g - fw, cy - fh / 2),
+                              "v": (cx - fw / 2, ay1 + ah + g), "V": (cx - fw / 2, ay1 - g - fh)}[d]
+                    doc = '<svg><rect id="a" xy="%g %g" wh="%g %g"/><rect id="b" xy="#a|%s%s" wh="%g %g"%s/></svg>' % (
+                        ax1, ay1, aw, ah, d, "" if gap is None else " %g" % gap, w, h,
+                        "" if not dwh else ' dwh="%s %s"' % tuple(("%g" % v if not isinstance(v, str) else v) for v in dwh))
+                    r = run_svgdx(repo, doc)
+                    if r["rc"] != 0:
+                        continue
+                    tree, err = _parse_xml(r["out"])
+                    if tree is None:
+                        continue
+                    b = [e for e in tree.iter() if e.attrib.get("id") == "b"]
+                    if not b:
+                        continue
+                    try:
+                        got = tuple(float(b[0].attrib.get(k, "nan")) for k in ("x", "y", "width", "height"))
+                    except ValueError:
+                        continue
+                    want = (ex, ey, fw, fh)
+                    if any(not abs(p - q) <= 0.002 for p, q in zip(got, want)):
+                        return {"input": doc, "observed": "x,y,width,height = %r" % (got,), "expected": "%r" % (want,)}
+    return None
